@@ -168,15 +168,20 @@ func PrefixArgs(p string, overrides map[string]string) []string {
 func wrapper(i int, c CallSpec, t TypeSpec) string {
 	f := fmt.Sprintf("Wrap%d", i)
 	if c.Inner != "" {
-		// t is map[string]int; INNER(a) is []string
+		// t is map[K]V; INNER(a) is []K
+		k := t.Go[len("map["):strings.Index(t.Go, "]")]
+		zero := "0"
+		if k == "string" {
+			zero = "\"\""
+		}
 		arg := c.Inner + "(a)"
 		switch c.Plugin {
 		case "min", "max":
-			return fmt.Sprintf("func %s(a %s) string { return %s(%s, \"\") }\n", f, t.Go, c.Name, arg)
+			return fmt.Sprintf("func %s(a %s) %s { return %s(%s, %s) }\n", f, t.Go, k, c.Name, arg, zero)
 		case "sort", "unique":
-			return fmt.Sprintf("func %s(a %s) []string { return %s(%s) }\n", f, t.Go, c.Name, arg)
+			return fmt.Sprintf("func %s(a %s) []%s { return %s(%s) }\n", f, t.Go, k, c.Name, arg)
 		case "set":
-			return fmt.Sprintf("func %s(a %s) map[string]struct{} { return %s(%s) }\n", f, t.Go, c.Name, arg)
+			return fmt.Sprintf("func %s(a %s) map[%s]struct{} { return %s(%s) }\n", f, t.Go, k, c.Name, arg)
 		case "hash":
 			return fmt.Sprintf("func %s(a %s) uint64 { return %s(%s) }\n", f, t.Go, c.Name, arg)
 		}
